@@ -661,6 +661,36 @@ fn gen_spread_label(g: &mut Gen, i: usize) -> Item {
 /// Before a duplicate is planted: a few more labels of *different kinds and encoded sizes* (short
 /// texts, one-, two- and four-byte integers of both signs), so that the repeated label has
 /// neighbours of every class around it.
+/// An integer label that is a well-known digest of a text label of the same map (FNV-1a / FNV-1 in
+/// 64 and 32 bits, djb2, the text's bytes read as a big-endian number): distinct labels all the same —
+/// a map key is a CBOR data item, an integer never equals a text.
+pub fn add_digest_label(g: &mut Gen, entries: &mut Vec<(Item, Item)>) {
+    let t = match entries.iter().find_map(|(k, _)| k.as_text().map(|s| s.to_string())) {
+        Some(t) => t,
+        None => {
+            let t = (*g.pick(&["example", "a", "", "kid"])).to_string();
+            let at = g.below(entries.len() + 1);
+            entries.insert(at, (Item::Text(t.clone()), Item::Int(1)));
+            t
+        }
+    };
+    let b = t.as_bytes();
+    let d: u64 = match g.below(6) {
+        0 => b.iter().fold(0xcbf2_9ce4_8422_2325u64, |h, x| (h ^ *x as u64).wrapping_mul(0x0000_0100_0000_01b3)),
+        1 => b.iter().fold(0xcbf2_9ce4_8422_2325u64, |h, x| h.wrapping_mul(0x0000_0100_0000_01b3) ^ *x as u64),
+        2 => b.iter().fold(0x811c_9dc5u32, |h, x| (h ^ *x as u32).wrapping_mul(0x0100_0193)) as u64,
+        3 => b.iter().fold(5381u64, |h, x| h.wrapping_mul(33).wrapping_add(*x as u64)),
+        4 => b.iter().take(8).fold(0u64, |h, x| (h << 8) | *x as u64),
+        _ => b.len() as u64,
+    };
+    let l = Item::Int(d as i64 as i128);
+    if matches!(&l, Item::Int(i) if (0..=7).contains(i)) || entries.iter().any(|(k, _)| k == &l) {
+        return;
+    }
+    let at = g.below(entries.len() + 1);
+    entries.insert(at, (l, Item::Int(2)));
+}
+
 pub fn add_mixed_labels(g: &mut Gen, entries: &mut Vec<(Item, Item)>) {
     let n = 2 + g.below(4);
     for i in 0..n {
@@ -766,6 +796,9 @@ pub fn gen_header(g: &mut Gen, f: &mut Faults, depth: usize) -> Item {
             gen_value(g, 2, true)
         };
         entries.push((l, v));
+    }
+    if g.ratio(1, 40) {
+        add_digest_label(g, &mut entries);
     }
     if f.take(g, "non-label-key") {
         let at = g.below(entries.len() + 1);
@@ -1110,6 +1143,9 @@ pub fn gen_key(g: &mut Gen, f: &mut Faults) -> Item {
             continue;
         }
         entries.push((l, if many { Item::Int(i as i128) } else { gen_param_value(g) }));
+    }
+    if g.ratio(1, 40) {
+        add_digest_label(g, &mut entries);
     }
     if f.take(g, "non-label-key") {
         let at = g.below(entries.len() + 1);
